@@ -6,3 +6,8 @@ package keeper
 // callback runs once (one OnAcknowledgePacket), in this order and with nothing else; any failing step fails the message
 // (shared with the C03 check, harness/C03/xk_c03.go).
 func VerifC05AckProcessedOnce() { ackOutcome() }
+
+// VerifC05FailedCallbackGetsTheErrorAck (shared with the C03 check): an accepted receive whose callback fails at any stage -
+// the EVM call errors, reverts, or a post-transaction hook rejects what the callback did - commits the error
+// acknowledgement (and none of the callback's effects); only a callback that went through commits its result.
+func VerifC05FailedCallbackGetsTheErrorAck() { recvOutcome() }
